@@ -154,6 +154,9 @@ def shape_of(cid, name, before):
     """coarse input class for known-findings signatures"""
     if cid.endswith("flask-enable-csrf-protection") and "from flask_wtf import" in before:
         return "class-imported-from-package-reexport"
+    if cid.endswith("flask-json-response-type"):
+        # the recorded finding is about files with several vulnerable routes (one is fixed per run)
+        return "several-sites-in-one-file" if before.count("json.dumps(") >= 2 else "single-site"
     return callshapes.shape_class(name)
 
 
